@@ -752,23 +752,26 @@ class Watcher(object):
             raise gen.Return(False)
 
         process.stopping = True
-        waited = 0
-        while waited < graceful_timeout:
-            if not process.is_alive():
-                break
-            yield tornado_sleep(0.1)
-            waited += 0.1
-        if waited >= graceful_timeout:
-            # On Windows we can't send a SIGKILL signal, but the
-            # process.stop function will terminate the process
-            # later anyway
-            if hasattr(signal, 'SIGKILL'):
-                # We are not smart anymore
-                self.send_signal_process(process, signal.SIGKILL,
-                                         recursive=True)
-        if self.stream_redirector:
-            self.stream_redirector.remove_redirections(process)
-        process.stopping = False
+        try:
+            waited = 0
+            while waited < graceful_timeout:
+                if not process.is_alive():
+                    break
+                yield tornado_sleep(0.1)
+                waited += 0.1
+            if waited >= graceful_timeout:
+                # On Windows we can't send a SIGKILL signal, but the
+                # process.stop function will terminate the process
+                # later anyway
+                if hasattr(signal, 'SIGKILL'):
+                    # We are not smart anymore
+                    self.send_signal_process(process, signal.SIGKILL,
+                                             recursive=True)
+            if self.stream_redirector:
+                self.stream_redirector.remove_redirections(process)
+        finally:
+            # whatever happened, nobody is killing it anymore
+            process.stopping = False
         process.stop()
         raise gen.Return(True)
 
